@@ -17,18 +17,18 @@ import (
 )
 
 type probeState struct {
-	kind   string // memcheck, c06, c11
-	task   *core.Task
-	tag    string
-	pod    *PodInfo
-	before []string // store IPs of the pod's key before the probe
-	fr     *filterReport
-	br     *bindReport
-	pages  []httpReport
-	post   *httpReport
-	entries []map[string]interface{}
-	fipMut []string // FloatingIP mutations observed during the probe: verb ip key
-	omit   bool
+	kind     string // memcheck, c06, c11
+	task     *core.Task
+	tag      string
+	pod      *PodInfo
+	before   []string // store IPs of the pod's key before the probe
+	fr       *filterReport
+	br       *bindReport
+	pages    []httpReport
+	post     *httpReport
+	entries  []map[string]interface{}
+	fipMut   []string // FloatingIP mutations observed during the probe: verb ip key
+	omit     bool
 	want     []string
 	haveWant bool
 }
